@@ -78,6 +78,45 @@ func checkStoreLog(log []sqlLogEntry) string {
 	return "ok"
 }
 
+// checkTimeoutLog: every operation of adapters/sqltimeout is exactly ONE statement, of the shape the model gives it
+// (coq/model/SqlTimeout.v), writes on the writer connection and reads on the reader, outside any transaction.
+func checkTimeoutLog(ops []string, log []sqlLogEntry) string {
+	if len(log) != len(ops) {
+		return fmt.Sprintf("%d operations issued %d statements", len(ops), len(log))
+	}
+	for i, op := range ops {
+		l := log[i]
+		sh := strings.ToLower(l.shape)
+		var want, conn string
+		switch op[0] {
+		case 'c':
+			want, conn = "insert into workflow_timeouts set workflow_name=?, foreign_id=?, run_id=?, status=?, completed=?, expire_at=?, created_at=now()", "writer"
+		case 'm':
+			want, conn = "update workflow_timeouts set completed=true where id=?", "writer"
+		case 'x':
+			want, conn = "delete from workflow_timeouts where id=?", "writer"
+		case 'v':
+			want, conn = "where workflow_name=? and status=? and expire_at<? and completed=false", "reader"
+		case 'l':
+			want, conn = "where workflow_name=? and completed=false", "reader"
+		}
+		ok := sh == want
+		if op[0] == 'v' || op[0] == 'l' {
+			ok = strings.HasPrefix(sh, "select") && strings.Contains(sh, " from workflow_timeouts ") && strings.HasSuffix(sh, want)
+		}
+		if !ok {
+			return fmt.Sprintf("operation %s issued the statement [%s]", op, l.shape)
+		}
+		if l.conn != conn {
+			return fmt.Sprintf("operation %s ran on the %s connection", op, l.conn)
+		}
+		if l.inTx {
+			return "operation " + op + " ran inside a transaction"
+		}
+	}
+	return "ok"
+}
+
 func runSQLStore(kind string, ops []string) string {
 	e := newSQLEngine()
 	store := sqlstore.New(openSQL(e, "writer"), openSQL(e, "reader"), "workflow_records", "workflow_outbox")
@@ -112,7 +151,7 @@ func runSQLTimeout(kind string, ops []string) string {
 	e := newSQLEngine()
 	ts := sqltimeout.New(openSQL(e, "writer"), openSQL(e, "reader"), "workflow_timeouts")
 	r := timeoutStoreOps(ts, ts.List, ops)
-	res := "ok"
+	res := checkTimeoutLog(ops, e.log)
 	if e.problem != "" {
 		res = e.problem
 	}
